@@ -2,7 +2,7 @@
    (relative-import resolution for every level and path length, chains of re-exports of every length), parameters
    (every argument-list length, through C02), docstrings (double cleandoc). *)
 From Coq Require Import List ZArith String Ascii Bool Arith Lia.
-From Verif Require Import Lib.Sexp Model.C02_params Proofs.C02_params Model.C17_base Gen.C17_tables Model.C17_agents.
+From Verif Require Import Lib.Sexp Model.C02_kinds Model.C02_params Proofs.C02_params Model.C17_base Gen.C17_tables Model.C17_agents.
 Import ListNotations.
 Open Scope string_scope.
 Open Scope list_scope.
